@@ -60,7 +60,7 @@ func (c *Ctx) ruleSeenFields(rule, fnKey, singularKey, readKey string) {
 		// (3) oneof exclusivity
 		sp2, _ := g.posOf(site)
 		found, _ := g.Forward(g.Entry(), Search{
-			Target: func(n ast.Node) bool { p, ok := g.where[n]; return ok && p == sp2 },
+			TargetPos: &sp2,
 			EdgeBarrier: func(b *cfgBlock, succ int) bool {
 				for _, a := range edgeAtoms(b, succ) {
 					if call, ok := a.E.(*ast.CallExpr); ok && !a.Val && nodeHasCallOn(info, call, hasKey, isOneof) != nil {
@@ -77,7 +77,7 @@ func (c *Ctx) ruleSeenFields(rule, fnKey, singularKey, readKey string) {
 			"every path passes `ContainingOneof()==nil` or the false edge of seenOneofs.Has(idx)",
 			"a path reaches the singular-field write for a oneof member without the `seenOneofs.Has(idx)` rejection: two members of one oneof would be accepted")
 		found2, _ := g.Forward(g.Entry(), Search{
-			Target:  func(n ast.Node) bool { p, ok := g.where[n]; return ok && p == sp2 },
+			TargetPos: &sp2,
 			Barrier: func(n ast.Node) bool { return nodeHasCallOn(info, n, setKey, isOneof) != nil },
 			EdgeBarrier: func(b *cfgBlock, succ int) bool {
 				for _, a := range edgeAtoms(b, succ) {
